@@ -127,6 +127,12 @@ def shipped_graphs(configs=None) -> list[dict]:
         if rec != rec2:
             raise GraphTranslationError(f"{label}: model.dag differs from VariablesDAG.from_dict(model.get_variables_specs())")
         rec["has_sources"] = "sources" in dag.variables
+        try:
+            # extension 4 of C15: how each definition of get_variables_specs() is written (not part of GenGraphs.v)
+            from harness import c15_defs
+            rec["defs"] = c15_defs.describe_specs(model.get_variables_specs(), KIND_OF_CLASS)
+        except Exception as e:
+            raise GraphTranslationError(f"{label}: cannot describe the definitions: {type(e).__name__}: {e}") from e
         out.append(rec)
     return out
 
